@@ -1,20 +1,36 @@
-"""Fail-closed translator for C06: the tables and index lists of femio's VTK
+"""Translator for C06: the tables, index lists and decisions of femio's VTK
 (meshio) export  ->  coq/C06/gen/VtkTables.v
 
-  config.DICT_FEMIO_ELEMENT_TO_MESHIO_ELEMENT        literal dict  str -> str
-  config.DICT_MESHIO_ELEMENT_TO_FEMIO_ELEMENT        must be the inverse comprehension
-  FEMElementalAttribute.ELEMENT_TYPES                literal list (order of the cell blocks)
-  FEMElementalAttribute.keys/values/items            must iterate ELEMENT_TYPES filtered by membership
-  FEMElementalAttribute._to_meshio                   which element types get a node permutation
-  FEMElementalAttribute._to_meshio_tet2 / _from_meshio_tet2
-        np.concatenate([data[:, a:b] | data[:, [k]] ...], axis=1)  ->  column index list (width 10)
-  FEMElementalAttribute._from_meshio                 which meshio cell types are permuted on import
-  FEMAttributes.to_meshio (nodal branch)             the rank bound of exported variables
+The export is read REGION BY REGION, by meaning rather than by spelling (a tiny
+symbolic evaluator over the `ast`: private helpers of the same class / module are
+inlined, module- and class-level constants are evaluated with literal_eval,
+guard-clause / early-return / if-else / conditional-expression forms of the same
+decision give the same decision tree, a dict comprehension and a loop that fills a
+dict give the same entries, locals may be renamed, internal calls may use keywords):
 
-Anything else raises TranslateError.
+  table        config.DICT_FEMIO_ELEMENT_TO_MESHIO_ELEMENT     (evaluated literal)
+  inverse      config.DICT_MESHIO_ELEMENT_TO_FEMIO_ELEMENT     pin: the inverse comprehension
+  types        FEMElementalAttribute.ELEMENT_TYPES              (evaluated literal)
+  iteration    FEMElementalAttribute.keys/values/items          pin: ELEMENT_TYPES by membership
+  export_perm  FEMElementalAttribute._to_meshio (+ helpers)     type -> column list (symbolic, width 10)
+  import_perm  FEMElementalAttribute._from_meshio (+ helpers)   meshio type -> column list
+  cells        FEMElementalAttribute.to_meshio / _to_indices    pin (alpha-renamed)
+  point_data   FEMAttributes.to_meshio (+ helpers), FEMAttribute.values_of
+                   rank bound, key, value: positional / by id through .loc / by id current values
+  fem_data     FEMData.to_meshio                                what is handed to meshio.Mesh
+
+A region the translator cannot read is NOT a violation by itself: `translate`
+returns it in `unread` (region -> reason); the value of that region is taken from the
+committed baseline (coq/C06/gen_baseline/tables.json = what was translated from the
+registered tree), the theorems are built against it and the harness runs a WIDENED
+correspondence for what the region decides (tie T degrades to H).  A region that IS
+read and differs from the baseline changes gen/VtkTables.v and the theorems are
+re-checked against it as before.
 """
 import ast
+import copy
 import hashlib
+import json
 from pathlib import Path
 
 
@@ -23,6 +39,16 @@ class TranslateError(Exception):
 
 
 TET2_WIDTH = 10       # number of nodes of a second-order tetrahedron
+BASELINE = Path(__file__).resolve().parent.parent / 'coq' / 'C06' / 'gen_baseline' / 'tables.json'
+REGIONS = ('table', 'inverse', 'types', 'iteration', 'export_perm', 'import_perm', 'cells',
+           'point_data', 'fem_data')
+# which generated values each region decides
+REGION_KEYS = {
+    'table': ['table'], 'inverse': [], 'types': ['element_types'], 'iteration': [],
+    'export_perm': ['export_permuted_types', 'tet2_to_meshio'],
+    'import_perm': ['import_permuted_types', 'tet2_from_meshio'],
+    'cells': [], 'point_data': ['point_data_rank_bound', 'pd_value'], 'fem_data': ['pd_ids_passed'],
+}
 
 
 def coq_str(s):
@@ -31,36 +57,48 @@ def coq_str(s):
     return '"' + s.replace('"', '""') + '"'
 
 
-def _module_assign(tree, name):
-    hits = [n for n in tree.body if isinstance(n, ast.Assign) and len(n.targets) == 1 and
+def _sha(src, node):
+    return hashlib.sha256(ast.get_source_segment(src, node).encode()).hexdigest()
+
+
+# ------------------------------------------------------------------ ast helpers
+def _assign_of(body, name):
+    return [n for n in body if isinstance(n, ast.Assign) and len(n.targets) == 1 and
             isinstance(n.targets[0], ast.Name) and n.targets[0].id == name]
-    if len(hits) != 1:
-        raise TranslateError(f'{name}: expected exactly one module-level assignment, found {len(hits)}')
-    for n in ast.walk(tree):     # no later mutation of the table
+
+
+def _not_mutated(tree, name):
+    for n in ast.walk(tree):
         if isinstance(n, (ast.Subscript, ast.Attribute)) and isinstance(getattr(n, 'value', None), ast.Name) \
                 and n.value.id == name and isinstance(getattr(n, 'ctx', None), (ast.Store, ast.Del)):
             raise TranslateError(f'{name} is modified after its definition')
         if isinstance(n, ast.Call) and isinstance(n.func, ast.Attribute) and \
                 isinstance(n.func.value, ast.Name) and n.func.value.id == name and \
-                n.func.attr in ('update', 'pop', 'clear', 'setdefault', 'popitem', '__setitem__'):
+                n.func.attr in ('update', 'pop', 'clear', 'setdefault', 'popitem', '__setitem__',
+                                'append', 'extend', 'insert', 'remove', 'sort', 'reverse'):
             raise TranslateError(f'{name} is modified after its definition')
+        if isinstance(n, ast.AugAssign) and isinstance(n.target, ast.Name) and n.target.id == name:
+            raise TranslateError(f'{name} is modified after its definition')
+
+
+def _module_assign(tree, name):
+    hits = _assign_of(tree.body, name)
+    if len(hits) != 1:
+        raise TranslateError(f'{name}: expected exactly one module-level assignment, found {len(hits)}')
+    _not_mutated(tree, name)
     return hits[0]
 
 
-def _str_dict(node, what):
-    if not isinstance(node, ast.Dict):
-        raise TranslateError(f'{what} is not a literal dict')
-    out = []
-    for k, v in zip(node.keys, node.values):
-        if not (isinstance(k, ast.Constant) and isinstance(k.value, str) and
-                isinstance(v, ast.Constant) and isinstance(v.value, str)):
-            raise TranslateError(f'{what}: entry is not a pair of string literals')
-        out.append((k.value, v.value))
-    # Python dict semantics: a repeated key keeps the LAST value at the FIRST position
-    d = {}
-    for k, v in out:
-        d[k] = v
-    return list(d.items())
+def _literal(node, what):
+    """value of a constant expression (literal_eval; dict(...) / tuple(...) / list(...) of one)"""
+    if isinstance(node, ast.Call) and isinstance(node.func, ast.Name) and \
+            node.func.id in ('dict', 'tuple', 'list') and len(node.args) == 1 and not node.keywords:
+        v = _literal(node.args[0], what)
+        return {'dict': dict, 'tuple': tuple, 'list': list}[node.func.id](v)
+    try:
+        return ast.literal_eval(node)
+    except (ValueError, TypeError, SyntaxError, MemoryError, RecursionError):
+        raise TranslateError(f'{what} is not a literal')
 
 
 def _class(tree, name):
@@ -85,232 +123,908 @@ def _body(fn):
     return b
 
 
+class _Alpha(ast.NodeTransformer):
+    """rename every locally bound name (parameters, assignment / loop / comprehension targets)
+    to v0, v1, ... in order of first binding: spelling of locals does not matter"""
+
+    def __init__(self):
+        self.map = {}
+
+    def _bind(self, name):
+        if name not in self.map:
+            self.map[name] = 'v%d' % len(self.map)
+
+    def visit_Name(self, n):
+        return ast.copy_location(ast.Name(id=self.map.get(n.id, n.id), ctx=n.ctx), n)
+
+    def visit_arg(self, n):
+        return ast.copy_location(ast.arg(arg=self.map.get(n.arg, n.arg), annotation=None), n)
+
+
+def _canon(node):
+    node = copy.deepcopy(node)
+    if isinstance(node, ast.FunctionDef):
+        node.body = _body(node)
+        node.decorator_list = []
+        node.returns = None
+    a = _Alpha()
+    # bind in source order (parameters first, then stores in the order they are written)
+    for n in ast.walk(node):
+        if isinstance(n, ast.arg):
+            a._bind(n.arg)
+    stores = [n for n in ast.walk(node) if isinstance(n, ast.Name) and isinstance(n.ctx, ast.Store)]
+    for n in sorted(stores, key=lambda n: (n.lineno, n.col_offset)):
+        a._bind(n.id)
+    return ast.dump(a.visit(node))
+
+
 def _same(node, src):
-    return ast.dump(node) == ast.dump(ast.parse(src).body[0])
+    """equal up to the names of locals / parameters, docstrings and layout"""
+    return _canon(node) == _canon(ast.parse(src).body[0])
 
 
-def _concat_columns(fn, width):
-    """return np.concatenate([data[:, a:b] | data[:, [k, ...]] ...], axis=1) -> index list"""
-    b = _body(fn)
-    if len(b) != 1 or not isinstance(b[0], ast.Return):
-        raise TranslateError(f'{fn.name}: body is not a single return')
-    c = b[0].value
-    if not (isinstance(c, ast.Call) and ast.dump(c.func) == ast.dump(ast.parse('np.concatenate').body[0].value)
-            and len(c.args) == 1 and isinstance(c.args[0], ast.List) and
-            [(k.arg, getattr(k.value, 'value', None)) for k in c.keywords] == [('axis', 1)]):
-        raise TranslateError(f'{fn.name}: not np.concatenate([...], axis=1)')
-    pname = fn.args.args[-1].arg
-    cols = []
-    for e in c.args[0].elts:
-        if not (isinstance(e, ast.Subscript) and isinstance(e.value, ast.Name) and e.value.id == pname
-                and isinstance(e.slice, ast.Tuple) and len(e.slice.elts) == 2):
-            raise TranslateError(f'{fn.name}: piece is not {pname}[:, ...]')
-        r, s = e.slice.elts
-        if not (isinstance(r, ast.Slice) and r.lower is None and r.upper is None and r.step is None):
-            raise TranslateError(f'{fn.name}: row index is not `:`')
-        if isinstance(s, ast.Slice):
-            if s.step is not None:
-                raise TranslateError(f'{fn.name}: slice step')
-            lo = 0 if s.lower is None else _nat(s.lower, fn.name)
-            hi = width if s.upper is None else _nat(s.upper, fn.name)
-            cols += list(range(lo, min(hi, width)))
-        elif isinstance(s, ast.List):
-            cols += [_nat(x, fn.name) for x in s.elts]
+# --------------------------------------------------------- symbolic evaluation
+# values:  ('cols', [k...])  a 2-D array whose columns are columns k of the input row block
+#          ('ident',)        the input array itself (any width)
+#          ('const', v)      a Python constant
+#          ('expr', dump)    an attribute / call chain kept symbolically (canonical text)
+#          ('fa', v)         FEMAttribute(..., data=v)         ('shift', v, n)   v + n
+class _Eval:
+    def __init__(self, module, cls, width):
+        self.module, self.cls, self.width = module, cls, width
+        self.depth = 0
+
+    # ---- constants
+    def const_of_name(self, name):
+        hits = _assign_of(self.module.body, name)
+        if len(hits) == 1:
+            _not_mutated(self.module, name)
+            return _literal(hits[0].value, name)
+        raise TranslateError(f'name {name} is not a module-level constant')
+
+    def class_const(self, name):
+        hits = _assign_of(self.cls.body, name) if self.cls is not None else []
+        if len(hits) == 1:
+            return _literal(hits[0].value, name)
+        raise TranslateError(f'{name} is not a class-level constant')
+
+    def const(self, node, env):
+        if isinstance(node, ast.Name):
+            if node.id in env:
+                v = env[node.id]
+                if v[0] == 'const':
+                    return v[1]
+                raise TranslateError(f'{node.id} is not a constant here')
+            return self.const_of_name(node.id)
+        if isinstance(node, ast.Attribute) and isinstance(node.value, ast.Name) and \
+                node.value.id in ('self', 'cls', getattr(self.cls, 'name', '')):
+            return self.class_const(node.attr)
+        if isinstance(node, (ast.List, ast.Tuple)):
+            return [self.const(e, env) for e in node.elts]
+        if isinstance(node, ast.UnaryOp) and isinstance(node.op, ast.USub):
+            return -self.const(node.operand, env)
+        if isinstance(node, ast.BinOp) and isinstance(node.op, (ast.Add, ast.Sub)):
+            a, b = self.const(node.left, env), self.const(node.right, env)
+            if isinstance(a, int) and isinstance(b, int):
+                return a + b if isinstance(node.op, ast.Add) else a - b
+        return _literal(node, 'constant')
+
+    # ---- expressions
+    def cols_of(self, v):
+        if v[0] == 'ident':
+            return list(range(self.width))
+        if v[0] == 'cols':
+            return v[1]
+        raise TranslateError('array expression expected')
+
+    def index(self, base, sl, env):
+        """base[:, sl] / base[..., sl]"""
+        cols = self.cols_of(base)
+        n = len(cols)
+        if isinstance(sl, ast.Slice):
+            if sl.step is not None:
+                raise TranslateError('slice step')
+            lo = 0 if sl.lower is None else self.const(sl.lower, env)
+            hi = n if sl.upper is None else self.const(sl.upper, env)
+            if not (isinstance(lo, int) and isinstance(hi, int)) or isinstance(lo, bool):
+                raise TranslateError('slice bound is not an integer constant')
+            return ('cols', cols[slice(lo, hi)])
+        idx = self.const(sl, env)
+        if isinstance(idx, (list, tuple)) and all(isinstance(k, int) and not isinstance(k, bool) for k in idx):
+            out = []
+            for k in idx:
+                if not -n <= k < n:
+                    raise TranslateError(f'column {k} out of range for width {n}')
+                out.append(cols[k])
+            return ('cols', out)
+        raise TranslateError('column index is neither a slice nor a list of integer constants')
+
+    def expr(self, node, env):
+        if isinstance(node, ast.Name):
+            if node.id in env:
+                return env[node.id]
+            return ('const', self.const_of_name(node.id))
+        if isinstance(node, ast.Constant):
+            return ('const', node.value)
+        if isinstance(node, (ast.List, ast.Tuple)):
+            try:
+                return ('const', self.const(node, env))
+            except TranslateError:
+                pass
+        if isinstance(node, ast.Attribute):
+            base = None
+            if isinstance(node.value, ast.Name) and node.value.id in env:
+                base = env[node.value.id]
+            if base is not None and base[0] == 'elem' and node.attr == 'data':
+                return ('ident',)
+            if isinstance(node.value, ast.Name) and node.value.id in ('self', 'cls') and \
+                    self.cls is not None and _assign_of(self.cls.body, node.attr):
+                return ('const', self.class_const(node.attr))
+            return ('expr', self.sym(node, env))
+        if isinstance(node, ast.Subscript):
+            base = self.expr(node.value, env)
+            if base[0] in ('ident', 'cols'):
+                s = node.slice
+                if isinstance(s, ast.Tuple) and len(s.elts) == 2:
+                    r, c = s.elts
+                    row_all = (isinstance(r, ast.Slice) and r.lower is None and r.upper is None
+                               and r.step is None) or \
+                              (isinstance(r, ast.Constant) and r.value is Ellipsis)
+                    if row_all:
+                        return self.index(base, c, env)
+                raise TranslateError('array index is not [:, columns]')
+            return ('expr', self.sym(node, env))
+        if isinstance(node, ast.BinOp) and isinstance(node.op, ast.Add):
+            a, b = self.expr(node.left, env), self.expr(node.right, env)
+            if b[0] == 'const' and isinstance(b[1], int):
+                return ('shift', a, b[1])
+            if a[0] == 'const' and isinstance(a[1], int):
+                return ('shift', b, a[1])
+            return ('expr', self.sym(node, env))
+        if isinstance(node, ast.Call):
+            return self.call(node, env)
+        if isinstance(node, ast.IfExp):
+            raise _Branch(node)
+        return ('expr', self.sym(node, env))
+
+    def sym(self, node, env):
+        """canonical text of an expression with the known locals substituted"""
+        class Sub(ast.NodeTransformer):
+            def visit_Name(s, n):
+                v = env.get(n.id)
+                if v is not None and v[0] == 'expr':
+                    return ast.parse(v[1], mode='eval').body
+                if v is not None and v[0] == 'sym':
+                    return ast.Name(id=v[1], ctx=ast.Load())
+                if v is not None and v[0] == 'const':
+                    return ast.Constant(value=v[1]) if not isinstance(v[1], (list, tuple, dict)) \
+                        else ast.parse(repr(v[1]), mode='eval').body
+                return n
+        return ast.unparse(Sub().visit(copy.deepcopy(node)))
+
+    def call(self, node, env):
+        f = node.func
+        fname = ast.unparse(f)
+        if fname in ('np.concatenate', 'numpy.concatenate', 'np.hstack', 'numpy.hstack',
+                     'np.column_stack', 'numpy.column_stack'):
+            kw = {k.arg: k.value for k in node.keywords}
+            if fname.endswith('concatenate'):
+                ax = kw.pop('axis', node.args[1] if len(node.args) == 2 else None)
+                if ax is None or self.const(ax, env) not in (1, -1):
+                    raise TranslateError('np.concatenate: axis is not 1 / -1')
+                if len(node.args) not in (1, 2):
+                    raise TranslateError('np.concatenate: arguments')
+            elif len(node.args) != 1:
+                raise TranslateError(fname + ': arguments')
+            if kw or not isinstance(node.args[0], (ast.List, ast.Tuple)):
+                raise TranslateError(fname + ': pieces are not a literal list')
+            out = []
+            for e in node.args[0].elts:
+                out += self.cols_of(self.expr(e, env))
+            return ('cols', out)
+        if fname in ('FEMAttribute', 'fem_attribute.FEMAttribute'):
+            kw = {k.arg: k.value for k in node.keywords}
+            d = kw.get('data', node.args[2] if len(node.args) > 2 else None)
+            if d is None:
+                raise TranslateError('FEMAttribute(...) without data')
+            return ('fa', self.expr(d, env))
+        # a private helper of the same class / module: inline it
+        target = None
+        if isinstance(f, ast.Attribute) and isinstance(f.value, ast.Name) and self.cls is not None and \
+                f.value.id in ('self', 'cls', self.cls.name):
+            ms = [n for n in self.cls.body if isinstance(n, ast.FunctionDef) and n.name == f.attr]
+            if len(ms) == 1:
+                target, bound = ms[0], True
+                deco = [ast.unparse(d) for d in ms[0].decorator_list]
+                if 'staticmethod' in deco:
+                    bound = False
+        elif isinstance(f, ast.Name):
+            ms = [n for n in self.module.body if isinstance(n, ast.FunctionDef) and n.name == f.id]
+            if len(ms) == 1:
+                target, bound = ms[0], False
+        if target is None:
+            return ('expr', self.sym(node, env))
+        return self.inline(target, bound, node, env)
+
+    def inline(self, fn, bound, call, env):
+        self.depth += 1
+        if self.depth > 6:
+            raise TranslateError('helper calls nested too deeply')
+        params = [a.arg for a in fn.args.args]
+        if fn.args.vararg or fn.args.kwarg or fn.args.posonlyargs:
+            raise TranslateError(f'{fn.name}: unsupported parameters')
+        new = {}
+        if bound:
+            new[params[0]] = env.get('self', ('sym', 'self'))
+            params = params[1:]
+        defaults = dict(zip(params[len(params) - len(fn.args.defaults):], fn.args.defaults))
+        kwonly = [a.arg for a in fn.args.kwonlyargs]
+        for a, d in zip(fn.args.kwonlyargs, fn.args.kw_defaults):
+            if d is not None:
+                defaults[a.arg] = d
+        if len(call.args) > len(params):
+            raise TranslateError(f'{fn.name}: too many arguments')
+        for p, a in zip(params, call.args):
+            new[p] = self.expr(a, env)
+        for k in call.keywords:
+            if k.arg is None or k.arg not in params + kwonly or k.arg in new:
+                raise TranslateError(f'{fn.name}: keyword argument')
+            new[k.arg] = self.expr(k.value, env)
+        for p in params + kwonly:
+            if p not in new:
+                if p not in defaults:
+                    raise TranslateError(f'{fn.name}: missing argument {p}')
+                new[p] = self.expr(defaults[p], {})
+        trees = self.run(_body(fn), new)
+        self.depth -= 1
+        if trees[0] != 'leaf':
+            raise _Tree(trees, call)
+        return trees[1]
+
+    # ---- conditions: atoms with a truth value decided by the caller's assignment
+    def cond(self, node, env):
+        """-> (atom, positive) ; atom is a hashable canonical description"""
+        if isinstance(node, ast.UnaryOp) and isinstance(node.op, ast.Not):
+            a, pos = self.cond(node.operand, env)
+            return a, not pos
+        if isinstance(node, ast.Compare) and len(node.ops) == 1:
+            op, l, r = node.ops[0], node.left, node.comparators[0]
+            lv = self.expr(l, env)
+            # a string-valued parameter compared with constants
+            if lv[0] == 'sym' and isinstance(op, (ast.Eq, ast.NotEq, ast.In, ast.NotIn)):
+                c = self.const(r, env)
+                vals = frozenset([c] if isinstance(op, (ast.Eq, ast.NotEq)) else c)
+                if not all(isinstance(x, str) for x in vals):
+                    raise TranslateError('comparison with a non-string constant')
+                return ('is_in', lv[1], vals), isinstance(op, (ast.Eq, ast.In))
+            if isinstance(op, (ast.Is, ast.IsNot)) and isinstance(r, ast.Constant) and r.value is None:
+                if lv == ('const', None):
+                    return ('true',), isinstance(op, ast.Is)
+                return ('is_none', lv[1] if lv[0] in ('sym', 'expr') else repr(lv)), isinstance(op, ast.Is)
+            # rank tests: len(X.shape) / X.ndim  against an integer constant
+            rk = self.rank_of(l, env)
+            if rk is not None and isinstance(op, (ast.Lt, ast.LtE, ast.Gt, ast.GtE)):
+                c = self.const(r, env)
+                if isinstance(c, int) and not isinstance(c, bool):
+                    if isinstance(op, ast.Lt):
+                        return ('rank_lt', rk, c), True
+                    if isinstance(op, ast.LtE):
+                        return ('rank_lt', rk, c + 1), True
+                    if isinstance(op, ast.GtE):
+                        return ('rank_lt', rk, c), False
+                    return ('rank_lt', rk, c + 1), False
+        v = self.expr(node, env)
+        if v[0] == 'const':
+            return ('true',), bool(v[1])
+        if v[0] in ('expr', 'sym'):
+            return ('truth', v[1]), True
+        raise TranslateError('condition not understood: ' + ast.unparse(node))
+
+    def rank_of(self, node, env):
+        if isinstance(node, ast.Call) and isinstance(node.func, ast.Name) and node.func.id == 'len' and \
+                len(node.args) == 1 and isinstance(node.args[0], ast.Attribute) and node.args[0].attr == 'shape':
+            return self.sym(node.args[0].value, env)
+        if isinstance(node, ast.Attribute) and node.attr == 'ndim':
+            return self.sym(node.value, env)
+        return None
+
+    # ---- statements: path enumeration -> decision tree of returned values
+    #      tree = ('leaf', value) | ('if', atom, tree_true, tree_false) | ('unread', reason)
+    def run(self, stmts, env):
+        env = dict(env)
+        for i, st in enumerate(stmts):
+            rest = stmts[i + 1:]
+            try:
+                if isinstance(st, ast.Expr) and isinstance(st.value, ast.Constant):
+                    continue
+                if isinstance(st, ast.Pass):
+                    continue
+                if isinstance(st, ast.Assign) and len(st.targets) == 1 and isinstance(st.targets[0], ast.Name):
+                    env[st.targets[0].id] = self.expr(st.value, env)
+                    continue
+                if isinstance(st, ast.Return):
+                    if st.value is None:
+                        return ('leaf', ('const', None))
+                    return ('leaf', self.expr(st.value, env))
+                if isinstance(st, ast.If):
+                    atom, pos = self.cond(st.test, env)
+                    t = self._guarded(list(st.body) + rest, env)
+                    f = self._guarded(list(st.orelse) + rest, env)
+                    if atom == ('true',):
+                        return t if pos else f
+                    return ('if', atom, t, f) if pos else ('if', atom, f, t)
+                if isinstance(st, ast.Raise):
+                    return ('leaf', ('raise',))
+                raise TranslateError('statement not understood: ' + type(st).__name__)
+            except _Branch as b:
+                # a conditional expression inside the statement: split the path on its test
+                atom, pos = self.cond(b.node.test, env)
+                t = self._guarded([_replace(st, b.node, b.node.body)] + rest, env)
+                f = self._guarded([_replace(st, b.node, b.node.orelse)] + rest, env)
+                if atom == ('true',):
+                    return t if pos else f
+                return ('if', atom, t, f) if pos else ('if', atom, f, t)
+            except _Tree as tr:
+                if isinstance(st, ast.Return) and tr.call is st.value:
+                    return tr.tree          # return helper(...): the helper's decision tree
+                raise TranslateError('a helper that branches is used inside an expression')
+        return ('leaf', ('const', None))
+
+    def _guarded(self, stmts, env):
+        try:
+            return self.run(stmts, env)
+        except TranslateError as e:
+            return ('unread', str(e))
+
+
+class _Branch(Exception):
+    def __init__(self, node):
+        self.node = node
+
+
+class _Tree(Exception):
+    def __init__(self, tree, call):
+        self.tree, self.call = tree, call
+
+
+def _replace(stmt, old, new):
+    """copy of stmt with the sub-expression `old` (by identity) replaced by `new`"""
+    class R(ast.NodeTransformer):
+        def generic_visit(s, n):
+            if n is old:
+                return new
+            return super().generic_visit(n)
+
+        def visit(s, n):
+            if n is old:
+                return new
+            return super().visit(n)
+    memo = {id(old): old, id(new): new}      # keep the identity of old / new through the copy
+    return R().visit(copy.deepcopy(stmt, memo))
+
+
+def _leaves(tree, want_atom_kind, path=()):
+    """[(assignment of atoms along the path, leaf)]"""
+    if tree[0] == 'if':
+        if tree[1][0] not in want_atom_kind:
+            raise TranslateError('decision on something else: ' + repr(tree[1]))
+        return _leaves(tree[2], want_atom_kind, path + ((tree[1], True),)) + \
+            _leaves(tree[3], want_atom_kind, path + ((tree[1], False),))
+    return [(path, tree)]
+
+
+# ----------------------------------------------------------------- the regions
+def _perm_region(module, cls, fname, elem_param_kind, width):
+    """the per-type node permutation of _to_meshio / _from_meshio:
+    -> (sorted list of permuted type names, column list)"""
+    fn = _method(cls, fname)
+    ev = _Eval(module, cls, width)
+    params = [a.arg for a in fn.args.args]
+    if len(params) != 3:
+        raise TranslateError(f'{fname}: expected (self|cls, cell_type, data)')
+    env = {params[0]: ('sym', 'self'), params[1]: ('sym', 'cell_type')}
+    env[params[2]] = ('elem',) if elem_param_kind == 'element' else ('ident',)
+    tree = ev.run(_body(fn), env)
+    permuted, cols, default_ident = set(), None, False
+    for path, leaf in _leaves(tree, ('is_in',)):
+        if leaf[0] != 'leaf':
+            raise TranslateError(f'{fname}: ' + (leaf[1] if leaf[0] == 'unread' else 'no value'))
+        v = leaf[1]
+        if elem_param_kind == 'data':          # _from_meshio returns FEMAttribute(name, ids, cell + 1)
+            if not (v[0] == 'fa' and v[1][0] == 'shift' and v[1][2] == 1):
+                raise TranslateError(f'{fname}: result is not FEMAttribute(..., data=cell + 1)')
+            v = v[1][1]
+        # the set of type names that reach this leaf
+        inc, exc = None, set()
+        for (kind, who, vals), truth in path:
+            if who != 'cell_type':
+                raise TranslateError(f'{fname}: decision on {who}')
+            if truth:
+                inc = set(vals) if inc is None else inc & set(vals)
+            else:
+                exc |= set(vals)
+        if inc is not None:
+            names = inc - exc
+            if not names:
+                continue                    # unreachable leaf
+            if v[0] == 'ident':
+                continue
+            if v[0] != 'cols':
+                raise TranslateError(f'{fname}: value for {sorted(names)} is not a column selection')
+            if cols is not None and cols != v[1]:
+                raise TranslateError(f'{fname}: more than one node permutation')
+            cols = v[1]
+            permuted |= names
+        else:                               # every other type
+            if v[0] != 'ident':
+                raise TranslateError(f'{fname}: the other types are not passed through unchanged')
+            default_ident = True
+    if not default_ident:
+        raise TranslateError(f'{fname}: no pass-through branch')
+    if cols is None:
+        return [], list(range(width))
+    return sorted(permuted), cols
+
+
+def _point_data_region(mod_attrs, cls_attrs, mod_attr, src_attr):
+    """FEMAttributes.to_meshio(ids) on a nodal table ->
+    rank bound, and the value exported for a variable: 'positional' | 'by_id_loc' | 'by_id_current'
+    for the call with ids and the call without"""
+    fn = _method(cls_attrs, 'to_meshio')
+    params = [a.arg for a in fn.args.args]
+    if len(params) not in (1, 2) or fn.args.vararg or fn.args.kwarg or fn.args.kwonlyargs:
+        raise TranslateError('FEMAttributes.to_meshio: parameters')
+    has_ids = len(params) == 2
+    if has_ids and not (len(fn.args.defaults) == 1 and isinstance(fn.args.defaults[0], ast.Constant)
+                        and fn.args.defaults[0].value is None):
+        raise TranslateError('FEMAttributes.to_meshio: ids has no default None')
+    ev = _DictEval(mod_attrs, cls_attrs, 0)
+    env = {params[0]: ('sym', 'self')}
+    if has_ids:
+        env[params[1]] = ('sym', 'ids')
+    tree = ev.run(_body(fn), env)
+    # the nodal branch: self.is_elemental false
+    res = {}
+    for ids_none in (False, True):
+        entries = None
+        for path, leaf in _leaves(tree, ('truth', 'is_none')):
+            ok = True
+            for atom, truth in path:
+                if atom == ('truth', 'self.is_elemental'):
+                    ok &= (truth is False)
+                elif atom == ('is_none', 'ids'):
+                    ok &= (truth == ids_none)
+                else:
+                    raise TranslateError('FEMAttributes.to_meshio: decision on ' + repr(atom))
+            if ok:
+                if leaf[0] != 'leaf':
+                    raise TranslateError('FEMAttributes.to_meshio (nodal): ' + str(leaf[1]))
+                if leaf[1][0] != 'dict':
+                    raise TranslateError('FEMAttributes.to_meshio (nodal) does not return a dict it built')
+                entries = leaf[1]
+        if entries is None:
+            raise TranslateError('FEMAttributes.to_meshio: no nodal branch')
+        res[ids_none] = _classify_entries(entries, ids_none)
+    if res[False][0] != res[True][0]:
+        raise TranslateError('rank bound depends on ids')
+    values_of_ok = None
+    if 'by_id_current' in (res[False][1], res[True][1]):
+        want = ('def values_of(self, ids):\n'
+                '    indices = self._data_frame.index.get_indexer(ids)\n'
+                '    if np.any(indices < 0):\n'
+                '        raise KeyError(f"{self.name} has no row for some of the IDs")\n'
+                '    return self.data[indices]')
+        vo = _method(_class(mod_attr, 'FEMAttribute'), 'values_of')
+        if not _same(vo, want):
+            raise TranslateError('FEMAttribute.values_of is not the id -> position lookup into self.data')
+        values_of_ok = _sha(src_attr, vo)
+    return {'point_data_rank_bound': res[False][0],
+            'pd_value': {'with_ids': res[False][1], 'without_ids': res[True][1]}}, values_of_ok
+
+
+class _DictEval(_Eval):
+    """adds: a dict built by a comprehension or by a loop over self.items()
+    value ('dict', iter_text, key_var, attr_var, tree_of_entry) where the entry tree has leaves
+    ('leaf', ('entry', key_value, value_value)) | ('leaf', ('none',))"""
+
+    def expr(self, node, env):
+        if isinstance(node, ast.DictComp):
+            if len(node.generators) != 1 or node.generators[0].is_async:
+                raise TranslateError('dict comprehension with several loops')
+            g = node.generators[0]
+            body = [ast.Assign(targets=[ast.Subscript(value=ast.Name(id='__d', ctx=ast.Load()),
+                                                      slice=node.key, ctx=ast.Store())],
+                               value=node.value, lineno=0)]
+            for c in reversed(g.ifs):
+                body = [ast.If(test=c, body=body, orelse=[])]
+            return self.loop(g.target, g.iter, body, '__d', env)
+        if isinstance(node, ast.Dict) and not node.keys:
+            return ('emptydict',)
+        return super().expr(node, env)
+
+    def loop(self, target, it, body, dname, env):
+        it_txt = self.sym(it, env)
+        e2 = dict(env)
+        if isinstance(target, ast.Tuple) and len(target.elts) == 2 and \
+                all(isinstance(x, ast.Name) for x in target.elts):
+            if it_txt != 'self.items()':
+                raise TranslateError('loop over ' + it_txt)
+            e2[target.elts[0].id] = ('sym', 'KEY')
+            e2[target.elts[1].id] = ('sym', 'ATTR')
+        elif isinstance(target, ast.Name):
+            if it_txt == 'self.values()':
+                e2[target.id] = ('sym', 'ATTR')
+            elif it_txt in ('self.keys()', 'self'):
+                e2[target.id] = ('sym', 'KEY')
+            else:
+                raise TranslateError('loop over ' + it_txt)
         else:
-            raise TranslateError(f'{fn.name}: column index form')
-    return cols
+            raise TranslateError('loop target')
+        return ('dict', self.body_tree(body, e2, dname))
+
+    def body_tree(self, stmts, env, dname):
+        """one iteration: -> tree with leaves ('entry', key, value) / ('none',)"""
+        env = dict(env)
+        for i, st in enumerate(stmts):
+            rest = stmts[i + 1:]
+            try:
+                if isinstance(st, ast.Continue):
+                    return ('leaf', ('none',))
+                if isinstance(st, (ast.Pass,)) or (isinstance(st, ast.Expr) and isinstance(st.value, ast.Constant)):
+                    continue
+                if isinstance(st, ast.If):
+                    atom, pos = self.cond(st.test, env)
+                    t = self.body_tree(list(st.body) + rest, env, dname)
+                    f = self.body_tree(list(st.orelse) + rest, env, dname)
+                    if atom == ('true',):
+                        return t if pos else f
+                    return ('if', atom, t, f) if pos else ('if', atom, f, t)
+                kv = None
+                if isinstance(st, ast.Assign) and len(st.targets) == 1:
+                    tg = st.targets[0]
+                    if isinstance(tg, ast.Subscript) and isinstance(tg.value, ast.Name) and tg.value.id == dname:
+                        kv = (tg.slice, st.value)
+                    elif isinstance(tg, ast.Name) and tg.id != dname:
+                        env[tg.id] = self.expr(st.value, env)
+                        continue
+                if isinstance(st, ast.Expr) and isinstance(st.value, ast.Call) and \
+                        isinstance(st.value.func, ast.Attribute) and st.value.func.attr == 'update' and \
+                        isinstance(st.value.func.value, ast.Name) and st.value.func.value.id == dname and \
+                        len(st.value.args) == 1 and not st.value.keywords and \
+                        isinstance(st.value.args[0], ast.Dict) and len(st.value.args[0].keys) == 1 and \
+                        st.value.args[0].keys[0] is not None:
+                    kv = (st.value.args[0].keys[0], st.value.args[0].values[0])
+                if kv is None:
+                    raise TranslateError('loop statement not understood: ' + ast.unparse(st)[:60])
+                if any(not isinstance(s, (ast.Pass, ast.Continue)) for s in rest):
+                    raise TranslateError('statements after the entry is stored')
+                return ('leaf', ('entry', self.expr(kv[0], env), self.expr(kv[1], env)))
+            except _Branch as b:
+                atom, pos = self.cond(b.node.test, env)
+                t = self.body_tree([_replace(st, b.node, b.node.body)] + rest, env, dname)
+                f = self.body_tree([_replace(st, b.node, b.node.orelse)] + rest, env, dname)
+                if atom == ('true',):
+                    return t if pos else f
+                return ('if', atom, t, f) if pos else ('if', atom, f, t)
+        return ('leaf', ('none',))
+
+    def run(self, stmts, env):
+        """as _Eval.run plus:  d = {} ; for k, a in self.items(): ... ; return d"""
+        env = dict(env)
+        for i, st in enumerate(stmts):
+            if isinstance(st, ast.For) and not st.orelse:
+                dn = [k for k, v in env.items() if v == ('emptydict',)]
+                filled = None
+                for d in dn:
+                    try:
+                        filled = (d, self.loop(st.target, st.iter, list(st.body), d, env))
+                        break
+                    except TranslateError as e:
+                        err = e
+                if filled is None:
+                    return ('unread', 'loop not understood' + (': ' + str(err) if dn else ''))
+                env[filled[0]] = filled[1]
+                return self.run_rest(stmts[i + 1:], env)
+            if isinstance(st, (ast.If, ast.Return)) or \
+                    (isinstance(st, ast.Assign) and isinstance(st.value, ast.IfExp)):
+                return super().run(stmts[i:], env)
+            if isinstance(st, ast.Assign) and len(st.targets) == 1 and isinstance(st.targets[0], ast.Name):
+                try:
+                    env[st.targets[0].id] = self.expr(st.value, env)
+                except _Branch:
+                    return super().run(stmts[i:], env)
+                continue
+            return super().run(stmts[i:], env)
+        return ('leaf', ('const', None))
+
+    def run_rest(self, stmts, env):
+        return self.run(stmts, env)
 
 
-def _nat(node, what):
-    if isinstance(node, ast.Constant) and isinstance(node.value, int) and \
-            not isinstance(node.value, bool) and node.value >= 0:
-        return node.value
-    raise TranslateError(f'{what}: non-negative integer literal expected')
+def _classify_entries(d, ids_none):
+    """('dict', tree) -> (rank bound, value kind)   for the given truth of `ids is None`"""
+    bound, kind = None, None
+    for path, leaf in _leaves(d[1], ('rank_lt', 'is_none')):
+        ok = True
+        rank_truth = None
+        for atom, truth in path:
+            if atom[0] == 'is_none':
+                if atom[1] != 'ids':
+                    raise TranslateError('decision on ' + repr(atom))
+                ok &= (truth == ids_none)
+            else:
+                if atom[1] != 'ATTR.data':
+                    raise TranslateError('rank of ' + atom[1])
+                if bound is not None and bound != atom[2]:
+                    raise TranslateError('two rank bounds')
+                bound = atom[2]
+                rank_truth = truth
+        if not ok:
+            continue
+        if leaf[0] != 'leaf':
+            raise TranslateError('point data entry: ' + str(leaf[1]))
+        e = leaf[1]
+        if rank_truth is None:
+            raise TranslateError('an entry is stored / skipped without a rank test')
+        if rank_truth is False:
+            if e[0] != 'none':
+                raise TranslateError('a variable of high rank is exported')
+            continue
+        if e[0] != 'entry':
+            raise TranslateError('a variable of low rank is skipped')
+        key, val = e[1], e[2]
+        if key != ('sym', 'KEY'):
+            raise TranslateError('point data is not keyed by the name the variable is stored under: '
+                                 + repr(key))
+        if val == ('expr', 'ATTR.data'):
+            k = 'positional'
+        elif val == ('expr', 'ATTR.values_of(ids)') and not ids_none:
+            k = 'by_id_current'
+        elif val == ('expr', 'ATTR.loc[ids].data') and not ids_none:
+            k = 'by_id_loc'
+        else:
+            raise TranslateError('exported value not understood: ' + repr(val))
+        if kind is not None and kind != k:
+            raise TranslateError('two kinds of exported value')
+        kind = k
+    if bound is None or kind is None:
+        raise TranslateError('no point data entry')
+    return bound, kind
 
 
-def _special_types(fn, helper, arg_src):
-    """if cell_type == 'X': return self.<helper>(<arg>) else: return <arg>   ->  ['X']"""
-    b = _body(fn)
-    if len(b) == 1 and isinstance(b[0], ast.If):
-        i = b[0]
-        t = i.test
-        if isinstance(t, ast.Compare) and isinstance(t.left, ast.Name) and t.left.id == 'cell_type' and \
-                len(t.ops) == 1 and isinstance(t.ops[0], ast.Eq) and \
-                isinstance(t.comparators[0], ast.Constant) and isinstance(t.comparators[0].value, str):
-            return [t.comparators[0].value], i
-    raise TranslateError(f'{fn.name}: not of the form `if cell_type == "...": ... else: ...`')
+def _fem_data_region(mod, cls):
+    """FEMData.to_meshio -> are the node ids handed to the nodal export; everything else pinned
+    by meaning: meshio.Mesh(points=self.nodes.data, cells=self.elements.to_meshio(self.nodes),
+    point_data=self.nodal_data.to_meshio([self.nodes.ids]), cell_data=self.elemental_data.to_meshio())"""
+    fn = _method(cls, 'to_meshio')
+    if [a.arg for a in fn.args.args] != ['self'] or fn.args.vararg or fn.args.kwarg or fn.args.kwonlyargs:
+        raise TranslateError('FEMData.to_meshio: parameters')
+    ev = _Eval(mod, None, 0)
+    tree = ev.run(_body(fn), {'self': ('sym', 'self')})
+    if tree[0] != 'leaf' or tree[1][0] != 'expr':
+        raise TranslateError('FEMData.to_meshio: not a single straight-line return')
+    call = ast.parse(tree[1][1], mode='eval').body
+    if not (isinstance(call, ast.Call) and ast.unparse(call.func) == 'meshio.Mesh'):
+        raise TranslateError('FEMData.to_meshio does not return meshio.Mesh(...)')
+    names = ['points', 'cells', 'point_data', 'cell_data']
+    got = {}
+    for n, a in zip(names, call.args):
+        got[n] = ast.unparse(a)
+    if len(call.args) > 4:
+        raise TranslateError('meshio.Mesh: arguments')
+    for k in call.keywords:
+        if k.arg not in names or k.arg in got:
+            raise TranslateError(f'meshio.Mesh: keyword {k.arg}')
+        got[k.arg] = ast.unparse(k.value)
+    want = {'points': ['self.nodes.data'], 'cells': ['self.elements.to_meshio(self.nodes)',
+                                                      'self.elements.to_meshio(nodes=self.nodes)'],
+            'cell_data': ['self.elemental_data.to_meshio()']}
+    for k, w in want.items():
+        if got.get(k) not in w:
+            raise TranslateError(f'meshio.Mesh: {k} is {got.get(k)}')
+    pd = got.get('point_data')
+    if pd in ('self.nodal_data.to_meshio(self.nodes.ids)', 'self.nodal_data.to_meshio(ids=self.nodes.ids)'):
+        return {'pd_ids_passed': True}
+    if pd in ('self.nodal_data.to_meshio()', 'self.nodal_data.to_meshio(None)',
+              'self.nodal_data.to_meshio(ids=None)'):
+        return {'pd_ids_passed': False}
+    raise TranslateError(f'meshio.Mesh: point_data is {pd}')
+
+
+def read_regions(repo):
+    """-> (values: region -> dict, consumed: name -> sha256, unread: region -> reason)"""
+    repo = Path(repo)
+    values, consumed, unread = {}, {}, {}
+    src, tree = {}, {}
+    for key, fname in (('c', 'config.py'), ('e', 'fem_elemental_attribute.py'), ('a', 'fem_attributes.py'),
+                       ('d', 'fem_data.py'), ('t', 'fem_attribute.py')):
+        try:
+            src[key] = (repo / 'femio' / fname).read_text()
+            tree[key] = ast.parse(src[key])
+        except (OSError, SyntaxError) as e:
+            src[key], tree[key] = '', None
+            unread['file:' + fname] = f'{type(e).__name__}: {e}'
+
+    def region(name, fn):
+        try:
+            values[name] = fn() or {}
+        except (TranslateError, KeyError, AttributeError, TypeError, ValueError, IndexError,
+                RecursionError) as e:
+            unread[name] = f'{type(e).__name__}: {e}'
+
+    def need(key):
+        if tree[key] is None:
+            raise TranslateError('file could not be parsed')
+        return tree[key]
+
+    def r_table():
+        a = _module_assign(need('c'), 'DICT_FEMIO_ELEMENT_TO_MESHIO_ELEMENT')
+        d = _literal(a.value, 'DICT_FEMIO_ELEMENT_TO_MESHIO_ELEMENT')
+        if not (isinstance(d, dict) and all(isinstance(k, str) and isinstance(v, str) for k, v in d.items())):
+            raise TranslateError('DICT_FEMIO_ELEMENT_TO_MESHIO_ELEMENT is not a dict str -> str')
+        consumed['config.py:DICT_FEMIO_ELEMENT_TO_MESHIO_ELEMENT'] = _sha(src['c'], a)
+        return {'table': [[k, v] for k, v in d.items()]}
+
+    def r_inverse():
+        inv = _module_assign(need('c'), 'DICT_MESHIO_ELEMENT_TO_FEMIO_ELEMENT')
+        if _same(inv, 'DICT_MESHIO_ELEMENT_TO_FEMIO_ELEMENT = {\n'
+                      '    v: k for k, v in DICT_FEMIO_ELEMENT_TO_MESHIO_ELEMENT.items()}'):
+            return {}
+        try:                                    # or the literal inverse
+            d = _literal(inv.value, 'inverse')
+            t = dict(values['table']['table'])
+            if d == {v: k for k, v in t.items()}:
+                return {}
+        except (TranslateError, KeyError):
+            pass
+        raise TranslateError('DICT_MESHIO_ELEMENT_TO_FEMIO_ELEMENT is not the inverse of the type table')
+
+    def r_types():
+        cls = _class(need('e'), 'FEMElementalAttribute')
+        et = _assign_of(cls.body, 'ELEMENT_TYPES')
+        if len(et) != 1:
+            raise TranslateError('FEMElementalAttribute.ELEMENT_TYPES: not one class-level assignment')
+        v = _literal(et[0].value, 'ELEMENT_TYPES')
+        if not (isinstance(v, (list, tuple)) and all(isinstance(x, str) for x in v)):
+            raise TranslateError('ELEMENT_TYPES is not a list of strings')
+        _not_mutated(need('e'), 'ELEMENT_TYPES')
+        consumed['fem_elemental_attribute.py:ELEMENT_TYPES'] = _sha(src['e'], et[0])
+        return {'element_types': list(v)}
+
+    def r_iteration():
+        cls = _class(need('e'), 'FEMElementalAttribute')
+        forms = {'keys': ['return [t for t in self.ELEMENT_TYPES if t in self]'],
+                 'values': ['return [self[t] for t in self.ELEMENT_TYPES if t in self]'],
+                 'items': ['return [(t, self[t]) for t in self.ELEMENT_TYPES if t in self]',
+                           'return [(t, self[t]) for t in self.keys()]',
+                           'return list(zip(self.keys(), self.values()))']}
+        for nm, srcs in forms.items():
+            m = _method(cls, nm)
+            b = _body(m)
+            if len(b) != 1 or not any(_same(b[0], s) for s in srcs):
+                raise TranslateError(f'FEMElementalAttribute.{nm} does not iterate ELEMENT_TYPES by membership')
+            consumed['fem_elemental_attribute.py:' + nm] = _sha(src['e'], m)
+
+    def r_export():
+        cls = _class(need('e'), 'FEMElementalAttribute')
+        sp, cols = _perm_region(need('e'), cls, '_to_meshio', 'element', TET2_WIDTH)
+        consumed['fem_elemental_attribute.py:_to_meshio'] = _sha(src['e'], _method(cls, '_to_meshio'))
+        return {'export_permuted_types': sp, 'tet2_to_meshio': cols}
+
+    def r_import():
+        cls = _class(need('e'), 'FEMElementalAttribute')
+        sp, cols = _perm_region(need('e'), cls, '_from_meshio', 'data', TET2_WIDTH)
+        consumed['fem_elemental_attribute.py:_from_meshio'] = _sha(src['e'], _method(cls, '_from_meshio'))
+        return {'import_permuted_types': sp, 'tet2_from_meshio': cols}
+
+    def r_cells():
+        cls = _class(need('e'), 'FEMElementalAttribute')
+        m = _method(cls, '_to_indices')
+        b = _body(m)
+        if len(b) != 1 or not _same(b[0], 'return {\n element_type: nodes.ids2indices(element_data.data)\n'
+                                          ' for element_type, element_data in self.items()}'):
+            raise TranslateError('_to_indices is not {type: nodes.ids2indices(data) for ... in self.items()}')
+        consumed['fem_elemental_attribute.py:_to_indices'] = _sha(src['e'], m)
+        m = _method(cls, 'to_meshio')
+        want = ("def to_meshio(self, nodes):\n"
+                "    tmp_elements = FEMElementalAttribute('ELEMENT', {\n k: FEMAttribute(k, v.ids, self._to_meshio(k, v))\n"
+                "     for k, v in self.items()})\n"
+                "    return {\n config.DICT_FEMIO_ELEMENT_TO_MESHIO_ELEMENT[k]: v\n for k, v in"
+                " tmp_elements._to_indices(nodes).items()}")
+        if not _same(m, want):
+            raise TranslateError('FEMElementalAttribute.to_meshio has an unexpected shape')
+        consumed['fem_elemental_attribute.py:to_meshio'] = _sha(src['e'], m)
+
+    def r_point_data():
+        cla = _class(need('a'), 'FEMAttributes')
+        v, vo_sha = _point_data_region(need('a'), cla, need('t'), src['t'])
+        consumed['fem_attributes.py:to_meshio'] = _sha(src['a'], _method(cla, 'to_meshio'))
+        if vo_sha:
+            consumed['fem_attribute.py:values_of'] = vo_sha
+        return v
+
+    def r_fem_data():
+        cls = _class(need('d'), 'FEMData')
+        v = _fem_data_region(need('d'), cls)
+        consumed['fem_data.py:to_meshio'] = _sha(src['d'], _method(cls, 'to_meshio'))
+        return v
+
+    for name, fn in (('table', r_table), ('inverse', r_inverse), ('types', r_types),
+                     ('iteration', r_iteration), ('export_perm', r_export), ('import_perm', r_import),
+                     ('cells', r_cells), ('point_data', r_point_data), ('fem_data', r_fem_data)):
+        region(name, fn)
+    return values, consumed, unread
+
+
+def load_baseline():
+    return json.loads(BASELINE.read_text())
+
+
+def combine(values, unread, baseline):
+    """flat table of generated values: translated regions, baseline for the unread ones;
+    derives the two flags of the nodal export"""
+    t = {}
+    for r in REGIONS:
+        src = values[r] if r in values else {k: baseline[k] for k in REGION_KEYS[r]}
+        t.update(src)
+    kind = t['pd_value']['with_ids'] if t['pd_ids_passed'] else t['pd_value']['without_ids']
+    t['point_data_by_id'] = kind in ('by_id_loc', 'by_id_current')
+    # attribute.loc[ids] reads the pandas frame, which in-place edits of attribute.data
+    # (attr.data[...] = v) do not refresh: the export depends on the history
+    t['point_data_current_values'] = kind != 'by_id_loc'
+    t['table'] = [tuple(x) for x in t['table']]
+    return t
 
 
 def translate(repo):
-    repo = Path(repo)
-    src_c = (repo / 'femio' / 'config.py').read_text()
-    src_e = (repo / 'femio' / 'fem_elemental_attribute.py').read_text()
-    src_a = (repo / 'femio' / 'fem_attributes.py').read_text()
-    tc, te, ta = ast.parse(src_c), ast.parse(src_e), ast.parse(src_a)
-    consumed = {}
-    out = {}
-    # --- type table and its inverse
-    a = _module_assign(tc, 'DICT_FEMIO_ELEMENT_TO_MESHIO_ELEMENT')
-    out['table'] = _str_dict(a.value, 'DICT_FEMIO_ELEMENT_TO_MESHIO_ELEMENT')
-    consumed['config.py:DICT_FEMIO_ELEMENT_TO_MESHIO_ELEMENT'] = hashlib.sha256(
-        ast.get_source_segment(src_c, a).encode()).hexdigest()
-    inv = _module_assign(tc, 'DICT_MESHIO_ELEMENT_TO_FEMIO_ELEMENT')
-    if not _same(inv, 'DICT_MESHIO_ELEMENT_TO_FEMIO_ELEMENT = {\n'
-                      '    v: k for k, v in DICT_FEMIO_ELEMENT_TO_MESHIO_ELEMENT.items()}'):
-        raise TranslateError('DICT_MESHIO_ELEMENT_TO_FEMIO_ELEMENT is not the inverse comprehension')
-    # --- block order
-    cls = _class(te, 'FEMElementalAttribute')
-    et = [n for n in cls.body if isinstance(n, ast.Assign) and len(n.targets) == 1 and
-          isinstance(n.targets[0], ast.Name) and n.targets[0].id == 'ELEMENT_TYPES']
-    if len(et) != 1 or not isinstance(et[0].value, ast.List) or not all(
-            isinstance(e, ast.Constant) and isinstance(e.value, str) for e in et[0].value.elts):
-        raise TranslateError('FEMElementalAttribute.ELEMENT_TYPES is not one literal list of strings')
-    out['element_types'] = [e.value for e in et[0].value.elts]
-    consumed['fem_elemental_attribute.py:ELEMENT_TYPES'] = hashlib.sha256(
-        ast.get_source_segment(src_e, et[0]).encode()).hexdigest()
-    for nm, src in (('keys', 'return [t for t in self.ELEMENT_TYPES if t in self]'),
-                    ('values', 'return [self[t] for t in self.ELEMENT_TYPES if t in self]'),
-                    ('items', 'return [(t, self[t]) for t in self.ELEMENT_TYPES if t in self]')):
-        b = _body(_method(cls, nm))
-        if len(b) != 1 or not _same(b[0], src):
-            raise TranslateError(f'FEMElementalAttribute.{nm} does not iterate ELEMENT_TYPES by membership')
-    # --- node permutations on export / import
-    f_to = _method(cls, '_to_meshio')
-    sp, i = _special_types(f_to, '_to_meshio_tet2', 'element.data')
-    if not (len(i.body) == 1 and _same(i.body[0], 'return self._to_meshio_tet2(element.data)') and
-            len(i.orelse) == 1 and _same(i.orelse[0], 'return element.data')):
-        raise TranslateError('_to_meshio: branches are not _to_meshio_tet2(element.data) / element.data')
-    out['export_permuted_types'] = sp
-    f_from = _method(cls, '_from_meshio')
-    bf = _body(f_from)
-    if not (len(bf) == 2 and isinstance(bf[0], ast.If)):
-        raise TranslateError('_from_meshio: unexpected shape')
-    sp2, i2 = _special_types(ast.FunctionDef(name='_from_meshio', args=f_from.args, body=[bf[0]],
-                                             decorator_list=[], lineno=0), '', '')
-    if not (len(i2.body) == 1 and _same(i2.body[0], 'cell = cls._from_meshio_tet2(data)') and
-            len(i2.orelse) == 1 and _same(i2.orelse[0], 'cell = data')):
-        raise TranslateError('_from_meshio: branches are not _from_meshio_tet2(data) / data')
-    out['import_permuted_types'] = sp2
-    out['tet2_to_meshio'] = _concat_columns(_method(cls, '_to_meshio_tet2'), TET2_WIDTH)
-    out['tet2_from_meshio'] = _concat_columns(_method(cls, '_from_meshio_tet2'), TET2_WIDTH)
-    for nm in ('_to_meshio', '_to_meshio_tet2', '_from_meshio', '_from_meshio_tet2', 'to_meshio',
-               '_to_indices'):
-        consumed['fem_elemental_attribute.py:' + nm] = hashlib.sha256(
-            ast.get_source_segment(src_e, _method(cls, nm)).encode()).hexdigest()
-    # to_meshio / _to_indices: structural check (the hand model mirrors exactly this text)
-    b = _body(_method(cls, '_to_indices'))
-    if len(b) != 1 or not _same(b[0], 'return {\n element_type: nodes.ids2indices(element_data.data)\n'
-                                      ' for element_type, element_data in self.items()}'):
-        raise TranslateError('_to_indices is not {type: nodes.ids2indices(data) for ... in self.items()}')
-    b = _body(_method(cls, 'to_meshio'))
-    want = ("tmp_elements = FEMElementalAttribute('ELEMENT', {\n k: FEMAttribute(k, v.ids, self._to_meshio(k, v))\n"
-            " for k, v in self.items()})",
-            "return {\n config.DICT_FEMIO_ELEMENT_TO_MESHIO_ELEMENT[k]: v\n for k, v in"
-            " tmp_elements._to_indices(nodes).items()}")
-    if len(b) != 2 or not _same(b[0], want[0]) or not _same(b[1], want[1]):
-        raise TranslateError('FEMElementalAttribute.to_meshio has an unexpected shape')
-    # --- nodal variables -> point data: rank bound, and positional or by node id
-    cla = _class(ta, 'FEMAttributes')
-    tm = _method(cla, 'to_meshio')
-    bt = _body(tm)
-    src_d = (repo / 'femio' / 'fem_data.py').read_text()
-    fdm = _method(_class(ast.parse(src_d), 'FEMData'), 'to_meshio')
-    call_pos = 'point_data = self.nodal_data.to_meshio()'
-    call_ids = 'point_data = self.nodal_data.to_meshio(self.nodes.ids)'
-    calls = [st for st in _body(fdm) if isinstance(st, ast.Assign) and
-             isinstance(st.targets[0], ast.Name) and st.targets[0].id == 'point_data']
-    others = ["cell_info = self.elements.to_meshio(self.nodes)",
-              "cell_data = self.elemental_data.to_meshio()",
-              "meshio_mesh = meshio.Mesh(\n self.nodes.data, cell_info,\n"
-              " point_data=point_data, cell_data=cell_data)",
-              "return meshio_mesh"]
-    rest = [st for st in _body(fdm) if st not in calls]
-    if len(calls) != 1 or len(rest) != len(others) or \
-            not all(_same(a, b) for a, b in zip(rest, others)):
-        raise TranslateError('FEMData.to_meshio has an unexpected shape')
-    nodal_pos = ('return {\n attribute_name: attribute_data.data\n'
-                 ' for attribute_name, attribute_data in self.items()\n'
-                 ' if len(attribute_data.data.shape) < 3}')
-    nodal_ids = ('return {\n attribute_name:\n attribute_data.data if ids is None\n'
-                 ' else attribute_data.loc[ids].data\n'
-                 ' for attribute_name, attribute_data in self.items()\n'
-                 ' if len(attribute_data.data.shape) < 3}')
-    # by id, through the CURRENT values (attribute.data) instead of the pandas frame
-    nodal_cur = ('return {\n attribute_name:\n attribute_data.data if ids is None\n'
-                 ' else attribute_data.values_of(ids)\n'
-                 ' for attribute_name, attribute_data in self.items()\n'
-                 ' if len(attribute_data.data.shape) < 3}')
-    values_of = ('def values_of(self, ids):\n'
-                 '    indices = self._data_frame.index.get_indexer(ids)\n'
-                 '    if np.any(indices < 0):\n'
-                 '        raise KeyError(f"{self.name} has no row for some of the IDs")\n'
-                 '    return self.data[indices]')
-    if not (len(bt) == 1 and isinstance(bt[0], ast.If) and len(bt[0].orelse) == 1 and
-            ast.dump(bt[0].test) == ast.dump(ast.parse('self.is_elemental').body[0].value)):
-        raise TranslateError('FEMAttributes.to_meshio has an unexpected shape')
-    params = [a.arg for a in tm.args.args]
-    out['point_data_current_values'] = True
-    if _same(calls[0], call_ids) and _same(bt[0].orelse[0], nodal_cur) and params == ['self', 'ids']:
-        src_fa = (repo / 'femio' / 'fem_attribute.py').read_text()
-        vo = _method(_class(ast.parse(src_fa), 'FEMAttribute'), 'values_of')
-        vo.body = _body(vo)
-        if ast.dump(vo) != ast.dump(ast.parse(values_of).body[0]):
-            raise TranslateError('FEMAttribute.values_of is not the id -> position lookup into self.data')
-        out['point_data_by_id'] = True
-        out['point_data_rank_bound'] = 3
-        for nm_, src_, node_ in (('fem_attributes.py:to_meshio', src_a, tm),
-                                 ('fem_data.py:to_meshio', src_d, fdm)):
-            consumed[nm_] = hashlib.sha256(ast.get_source_segment(src_, node_).encode()).hexdigest()
-        return out, consumed
-    if _same(calls[0], call_pos) and _same(bt[0].orelse[0], nodal_pos) and params == ['self']:
-        out['point_data_by_id'] = False
-    elif _same(calls[0], call_pos) and _same(bt[0].orelse[0], nodal_ids) and params == ['self', 'ids'] \
-            and len(tm.args.defaults) == 1 and isinstance(tm.args.defaults[0], ast.Constant) \
-            and tm.args.defaults[0].value is None:
-        out['point_data_by_id'] = False      # new parameter, not used by the export
-    elif _same(calls[0], call_ids) and _same(bt[0].orelse[0], nodal_ids) and params == ['self', 'ids']:
-        out['point_data_by_id'] = True
-        # attribute.loc[ids] reads the pandas frame, which in-place edits of attribute.data
-        # (attr.data[...] = v) do not refresh: the export depends on the history
-        out['point_data_current_values'] = False
-    else:
-        raise TranslateError('nodal point-data export is neither the positional nor the by-id form')
-    out['point_data_rank_bound'] = 3
-    consumed['fem_attributes.py:to_meshio'] = hashlib.sha256(
-        ast.get_source_segment(src_a, tm).encode()).hexdigest()
-    consumed['fem_data.py:to_meshio'] = hashlib.sha256(
-        ast.get_source_segment(src_d, fdm).encode()).hexdigest()
-    return out, consumed
+    """fail-closed entry (every region must be readable) - kept for the command line / replay"""
+    values, consumed, unread = read_regions(repo)
+    if unread:
+        raise TranslateError('; '.join(f'{k}: {v}' for k, v in unread.items()))
+    return combine(values, unread, {}), consumed
 
 
-def emit(t):
+def emit(t, unread=None):
     sl = lambda xs: '[' + '; '.join(coq_str(x) for x in xs) + ']'          # noqa
     nl = lambda xs: '[' + '; '.join(str(x) for x in xs) + ']'              # noqa
     L = ['(* GENERATED by translate/c06_tables.py from femio/config.py,',
-         '   femio/fem_elemental_attribute.py, femio/fem_attributes.py -- do not edit. *)',
-         'From Coq Require Import String List.', 'Import ListNotations.', 'Open Scope string_scope.', '',
-         '(* config.DICT_FEMIO_ELEMENT_TO_MESHIO_ELEMENT, in dict order *)',
-         'Definition femio_to_meshio : list (string * string) :=',
-         '  [' + ';\n   '.join(f'({coq_str(k)}, {coq_str(v)})' for k, v in t['table']) + '].', '',
-         '(* FEMElementalAttribute.ELEMENT_TYPES: the order in which items() yields the blocks *)',
-         f'Definition element_types : list string :=\n  {sl(t["element_types"])}.', '',
-         '(* element types whose nodes are re-ordered on export / meshio cell types on import *)',
-         f'Definition export_permuted_types : list string := {sl(t["export_permuted_types"])}.',
-         f'Definition import_permuted_types : list string := {sl(t["import_permuted_types"])}.', '',
-         '(* _to_meshio_tet2 / _from_meshio_tet2: result[k] = data[list[k]] *)',
-         f'Definition tet2_to_meshio : list nat := {nl(t["tet2_to_meshio"])}.',
-         f'Definition tet2_from_meshio : list nat := {nl(t["tet2_from_meshio"])}.', '',
-         '(* FEMAttributes.to_meshio exports the variables with len(shape) < this *)',
-         f'Definition point_data_rank_bound : nat := {t["point_data_rank_bound"]}.',
-         '(* FEMData.to_meshio hands the node ids to it (values looked up by id) or not (positional) *)',
-         f'Definition point_data_by_id : bool := {str(t["point_data_by_id"]).lower()}.',
-         '(* the exported rows are the CURRENT values (attribute.data); false = read through the pandas',
-         '   frame (.loc), which an in-place edit `attribute.data[...] = v` leaves stale *)',
-         f'Definition point_data_current_values : bool := {str(t["point_data_current_values"]).lower()}.']
+         '   femio/fem_elemental_attribute.py, femio/fem_attributes.py -- do not edit. *)']
+    if unread:
+        L += ['(* regions the translator could not read on this tree (values from the committed baseline',
+              '   coq/C06/gen_baseline/tables.json, tied by the widened correspondence): '
+              + ', '.join(sorted(unread)) + ' *)']
+    L += ['From Coq Require Import String List.', 'Import ListNotations.', 'Open Scope string_scope.', '',
+          '(* config.DICT_FEMIO_ELEMENT_TO_MESHIO_ELEMENT, in dict order *)',
+          'Definition femio_to_meshio : list (string * string) :=',
+          '  [' + ';\n   '.join(f'({coq_str(k)}, {coq_str(v)})' for k, v in t['table']) + '].', '',
+          '(* FEMElementalAttribute.ELEMENT_TYPES: the order in which items() yields the blocks *)',
+          f'Definition element_types : list string :=\n  {sl(t["element_types"])}.', '',
+          '(* element types whose nodes are re-ordered on export / meshio cell types on import *)',
+          f'Definition export_permuted_types : list string := {sl(t["export_permuted_types"])}.',
+          f'Definition import_permuted_types : list string := {sl(t["import_permuted_types"])}.', '',
+          '(* _to_meshio_tet2 / _from_meshio_tet2: result[k] = data[list[k]] *)',
+          f'Definition tet2_to_meshio : list nat := {nl(t["tet2_to_meshio"])}.',
+          f'Definition tet2_from_meshio : list nat := {nl(t["tet2_from_meshio"])}.', '',
+          '(* FEMAttributes.to_meshio exports the variables with len(shape) < this *)',
+          f'Definition point_data_rank_bound : nat := {t["point_data_rank_bound"]}.',
+          '(* FEMData.to_meshio hands the node ids to it (values looked up by id) or not (positional) *)',
+          f'Definition point_data_by_id : bool := {str(t["point_data_by_id"]).lower()}.',
+          '(* the exported rows are the CURRENT values (attribute.data); false = read through the pandas',
+          '   frame (.loc), which an in-place edit `attribute.data[...] = v` leaves stale *)',
+          f'Definition point_data_current_values : bool := {str(t["point_data_current_values"]).lower()}.']
     return '\n'.join(L) + '\n'
 
 
 if __name__ == '__main__':
     import sys
-    t, c = translate(sys.argv[1] if len(sys.argv) > 1 else '/repo')
-    sys.stdout.write(emit(t))
+    values, consumed, unread = read_regions(sys.argv[1] if len(sys.argv) > 1 else '/repo')
+    if len(sys.argv) > 2 and sys.argv[2] == '--baseline':
+        if unread:
+            sys.exit('cannot write a baseline: ' + json.dumps(unread))
+        flat = {}
+        for r in REGIONS:
+            flat.update(values[r])
+        sys.stdout.write(json.dumps(flat, indent=1) + '\n')
+    else:
+        sys.stderr.write('unread: ' + json.dumps(unread, indent=1) + '\n')
+        sys.stdout.write(emit(combine(values, unread, load_baseline() if unread else {}), unread))
